@@ -503,6 +503,15 @@ fn random_tlv_section(rng: &mut Rng, budget: usize) -> Vec<u8> {
             break;
         }
         v.push(*rng.pick(&[1u8, 2, 3, 4, 5, 0x20, 0x21, 0x30, 0xEE, 0]));
+        if rng.chance(1, 10) && v.len() + 3 + 90 <= budget {
+            // a nested PP2_TYPE_SSL structure
+            let val = crate::builder::ssl_value(rng.below(2048) as usize);
+            v.pop();
+            v.push(0x20);
+            v.extend_from_slice(&(val.len() as u16).to_be_bytes());
+            v.extend(val);
+            continue;
+        }
         if rng.chance(1, 8) && v.len() + 2 + 40 <= budget {
             // a value made of the protocol's own vocabulary (the signature, an embedded header, a text line)
             let val = crate::builder::vocabulary_bytes(rng);
